@@ -262,7 +262,7 @@ mod with_borsh {
         ($name:ident, $t:ty, $unw:expr) => {
             #[kani::proof]
             #[kani::unwind($unw)]
-            fn $name() {
+            pub(crate) fn $name() {
                 roundtrip::<$t>()
             }
         };
@@ -271,7 +271,7 @@ mod with_borsh {
         ($name:ident, $t:ty, $n:expr, $unw:expr) => {
             #[kani::proof]
             #[kani::unwind($unw)]
-            fn $name() {
+            pub(crate) fn $name() {
                 roundtrip_pw::<$t, $n>()
             }
         };
@@ -293,7 +293,7 @@ mod with_borsh {
     /// NaN is rejected by borsh on the way out (so the non-NaN precondition is not vacuous).
     #[kani::proof]
     #[kani::unwind(12)]
-    fn borsh_nan_rejected() {
+    pub(crate) fn borsh_nan_rejected() {
         let v = Poly0(f64::NAN);
         let mut buf = [0u8; CAP];
         assert!(ser(&v, &mut buf).is_none(), "borsh serialized a NaN");
@@ -589,7 +589,7 @@ mod with_serde {
         ($name:ident, $t:ty, $unw:expr) => {
             #[kani::proof]
             #[kani::unwind($unw)]
-            fn $name() {
+            pub(crate) fn $name() {
                 roundtrip::<$t>()
             }
         };
@@ -598,7 +598,7 @@ mod with_serde {
         ($name:ident, $t:ty, $n:expr, $unw:expr) => {
             #[kani::proof]
             #[kani::unwind($unw)]
-            fn $name() {
+            pub(crate) fn $name() {
                 roundtrip_pw::<$t, $n>()
             }
         };
